@@ -37,7 +37,7 @@ ASSUME = [
     "(C06_quiet_refuted) - SQLiteImpl.compare_server_default reports a difference on a matching database",
     "an upgrade rendered without batch mode that contains an operation SQLite cannot ALTER may fail loudly; such a run is outside the property",
 ]
-RULE = ("ALL 380 ordered pairs of distinct catalogue types on one indexed column, then seeded random schema pairs: A = 1-4 tables (pk "
+RULE = ("ALL 380 ordered pairs of distinct catalogue types on one indexed column, 12 pairs altering one column in two or three respects at once (type / nullability / server default), then seeded random schema pairs: A = 1-4 tables (pk "
         "column + 0-5 columns over a 20-entry type catalogue, ~35% with a server default from a 19-entry catalogue of Python-string and "
         "text() defaults; 0-3 named unique constraints / indexes; 0-2 named foreign keys, single- or two-column, to a table of lower or "
         "equal name incl. self-reference, ~45% with ON UPDATE / ON DELETE / DEFERRABLE / INITIALLY options in upper, lower and mixed case), B = A after 0-6 random changes from 18 kinds (tables/columns added or dropped, nullability, "
@@ -65,12 +65,26 @@ LEVEL_NOTE = ("Partial: closed type catalogue, SQLite only, server defaults rest
 
 def generate(tier, seed):
     rnd = random.Random(seed * 7919 + 6)
-    n = 400 if tier == "quick" else 8000
+    n = 300 if tier == "quick" else 8000
     import copy
     for A, y in S.type_matrix(True):          # all 380 ordered pairs of distinct catalogue types on one (indexed) column
         B = copy.deepcopy(A)
         B[0]["cols"][1][1], B[0]["cols"][1][2] = y[0], list(y[1])
         yield {"A": A, "B": B, "desc": ["type_matrix"]}
+    # one column altered in several respects at once (type / nullability / server default in every combination)
+    for (f1, a1), (f2, a2) in [((0, []), (3, [20])), ((3, [50]), (5, [10, 2])), ((9, []), (4, []))]:
+        for dn in (False, True):
+            for dt in (False, True):
+                for dd in (False, True):
+                    if dn + dt + dd < 2: continue
+                    A = [{"name": 0, "cols": [[0, 0, [], False, True, None], [1, f1, list(a1), True, False, ["lit", "5"]],
+                                              [2, 0, [], True, False, None]], "cons": [["ix", 0, [2], False]], "fks": []}]
+                    B = copy.deepcopy(A)
+                    c = B[0]["cols"][1]
+                    if dn: c[3] = False
+                    if dt: c[1], c[2] = f2, list(a2)
+                    if dd: c[5] = ["expr", "'x'"]
+                    yield {"A": A, "B": B, "desc": ["combo_alter"]}
     for _ in range(n):
         A, B, desc = S.gen_pair(rnd)
         yield {"A": A, "B": B, "desc": desc}
